@@ -110,3 +110,31 @@ def c05_composed_matrix_layout(v):
         return m.startswith(('IndexError@chi/_population_models.py',
                              'ValueError@chi/_population_models.py'))
     return False
+
+
+def c12_lognormal_nonpositive(v):
+    """
+    LogNormalFilter / LogNormalKDEFilter with a non-positive simulated value:
+    log() gives NaN scores on plain arrays, while masked-array arithmetic
+    (measurements with NaN) masks the invalid cells and returns a finite score
+    without them.  Attributed only to the dedicated non-positive-simulation
+    monitor, only for the two log-normal filters, and only when the plain
+    scores are not finite and the padded ones are finite (the pinned
+    behaviour); any other disagreement is a new violation.
+    """
+    if v['monitor'] != 'invariance':
+        return False
+    if not v['mechanism'].startswith(
+            ('nonpositive_simulation_scores_differ:LogNormalFilter',
+             'nonpositive_simulation_scores_differ:LogNormalKDEFilter')):
+        return False
+    sc = v.get('detail', {}).get('scores', {})
+
+    def fin(x):
+        try:
+            return abs(float(x)) < float('inf')
+        except (TypeError, ValueError):
+            return False
+    return (not fin(sc.get('plain'))) and (not fin(sc.get('plain:s1'))) \
+        and fin(sc.get('nan_padding')) and fin(sc.get('nan_padding:s1')) \
+        and sc.get('nan_padding') == sc.get('nan_padding:s1')
